@@ -39,6 +39,13 @@ def gen_life(tier, rng, translation_heavy=False):
         for drv, n in (("life32", 3), ("life32", 4), ("lifen", 63), ("lifen", 64)):
             cases.append("%s c:0:1 r:1:0:2 fill:0:%d rx:0:0:1 u:1 rx:0:0:1 go:0" % (drv, n))
             cases.append("%s c:0:1 r:1:0:2 fill:0:%d rx:0:0:1 rx:0:0:1 u:1 rx:2:0:1 rx:0:0:3" % (drv, n))
+        # histories in which EVERY abort is recoverable: a refused operation of any kind leaves no trace
+        ralpha = ["!" + a for a in ("c:0:1", "c:0:0", "d:0", "m:0", "f:0", "r:0:0:1", "r:1:0:1", "r:1:0:2", "u:0", "u:1", "c:1:1", "d:1", "r:2:1:1", "q:0", "x:0:64")]
+        for d in range(1, 4):
+            for ops in itertools.product(ralpha, repeat=d):
+                cases.append("life32 " + " ".join(ops))
+        for _ in range(1500 if tier == "quick" else 15000):
+            cases.append("life32 " + " ".join(rng.choice(ralpha) for _ in range(rng.randrange(4, 14))))
     for _ in range(4000 if tier == "quick" else 40000):
         n = rng.randrange(4, 16)
         cases.append("life32 " + " ".join(rng.choice(alpha) for _ in range(n)))
@@ -62,6 +69,6 @@ def NONTRIVIAL(case, model, cls):
 
 RULE = ("histories over 3 sandbox objects of verif32 (create with injected failure, destroy, malloc, free, register, unregister, by-name lookup and internal lookup (back end asked or "
         "served from cache), guest call of a raw entry-point slot, example-based pointer translation into each object's region): exhaustive to depth 3 (quick)/4 (thorough) over an alphabet "
-        "of 34 operations (incl. registrations whose abort is recoverable: a refused registration leaves no trace), random to length 15; every seventh history also on rlbox_noop_sandbox. Every outcome of every step is compared; an abort ends the history.")
+        "of 34 operations (incl. registrations whose abort is recoverable: a refused registration leaves no trace), random to length 15; every seventh history also on rlbox_noop_sandbox. Histories in which every abort is recoverable (prefix !): exhaustive to depth 3 over 15 operations + random; a refused operation leaves no trace. Every outcome of every step is compared; an abort ends the history.")
 TRUSTED = ["model coq/World.v hand-written; tied by differential correspondence of whole histories"]
 ASSUMPTIONS = ["abort is terminal (the history ends at the first failed dynamic_check) except for the recoverable registration op rx", "single thread (C18 covers threads)"]
